@@ -113,13 +113,27 @@ def structured_matrix(draw, n, p, exact=None, boundary_positions=(), max_shifts=
 @st.composite
 def any_matrix(draw, n, p):
     """Mixture of the families; returns X only."""
-    kind = draw(st.sampled_from(["exact", "generic", "structured", "structured", "constant"]))
+    kind = draw(st.sampled_from(["structured", "exact", "generic", "plateau", "constant", "structured"]))
+    if kind == "plateau":
+        # piecewise constant at values that are not exactly representable: prefix-sum variances of
+        # the constant runs are rounding noise of either sign around 0 (sensor stuck at a reading)
+        levels = [0.1, 0.3, 0.7, 1.0 / 3.0, 2.2, -1.1, 0.05]
+        X = [[0.0] * p for _ in range(n)]
+        for j in range(p):
+            i = 0
+            while i < n:
+                run = draw(st.integers(2, max(2, n)))
+                v = draw(st.sampled_from(levels))
+                for r in range(i, min(n, i + run)):
+                    X[r][j] = v
+                i += run
+        return X
     if kind == "exact":
         return draw(exact_matrix(n, p))
     if kind == "generic":
         return draw(generic_matrix(n, p))
     if kind == "constant":
-        c = draw(st.sampled_from([0.0, 1.0, 0.1, -3.5]))
+        c = draw(st.sampled_from([0.1, 0.0, 1.0, -3.5, 0.3]))
         X = [[c] * p for _ in range(n)]
         if draw(st.booleans()) and p > 1:
             col = draw(exact_matrix(n, 1))
